@@ -163,6 +163,12 @@ func (g *gen) next(w *world) []string {
 		if !g.registered[e] {
 			add(30, "ext", e, "register", g.subs[e])
 			add(misuse, "ext", e, "register", "B")
+			if s.AgentID(e) != "" && !blocked[e+".next"] {
+				// not yet registered in this generation: the identifier of the previous one is stale
+				add(misuse, "ext", e, "next")
+				add(misuse/2, "ext", e, "exiterror", "Extension.Stale")
+				add(misuse/2, "ext", e, "initerror", "Extension.Stale")
+			}
 			add(misuse, "ext", e, "register", "I", "badjson")
 			add(misuse/2, "ext", e, "register", "I", "cfgkeys")
 		} else {
@@ -173,6 +179,11 @@ func (g *gen) next(w *world) []string {
 			add(misuse, "ext", e, "nextbadid")
 			add(misuse, "ext", e, "nextnoid")
 			add(misuse, "ext", e, "nextunknownid")
+			if s.PrevAgentID(e) != "" {
+				add(misuse, "ext", e, "nextoldid")
+				add(misuse, "ext", e, "initerror", "Extension.Old", "oldid")
+				add(misuse, "ext", e, "exiterror", "Extension.Old", "oldid")
+			}
 			add(misuse, "ext", e, "initerror", "Extension.Foo")
 			if g.gotShutdown[e] && (g.family == "faults" || g.family == "shutdown" || g.family == "chaos" || g.family == "timeouts") {
 				// an extension may report an exit error while it is being shut down
